@@ -114,6 +114,16 @@ fn udp_bytes(src: [u8; 4], sport: u16, dst: [u8; 4], dport: u16, payload: &[u8])
 /// One candidate malformed frame (IPv4 or ARP) derived from `base` or built from scratch.
 fn mangle(base: &[u8], s: &mut impl FnMut(u64) -> u64) -> Vec<u8> {
     let mut v = base.to_vec();
+    if v.len() >= 20 && s(5) == 0 {
+        // IPv4 total length / more-fragments / fragment offset extremes: what the
+        // header says about its own size decides what reassembly computes with
+        let tl = [0u16, 1, 5, 19, 20, 21, 28, 0x7fff, 0xffff][s(9) as usize];
+        v[2..4].copy_from_slice(&tl.to_be_bytes());
+        let fo = [0u16, 1, 2, 3, 0x1fff, 0x1ffe][s(6) as usize];
+        let flags = [0u16, 0x2000, 0x2000, 0x6000][s(4) as usize];
+        v[6..8].copy_from_slice(&(flags | fo).to_be_bytes());
+        return v;
+    }
     match s(9) {
         0 => {
             let n = s(v.len() as u64 + 1) as usize;
